@@ -145,22 +145,22 @@ Qed.
 
 (* ---- lookaheads consume nothing and leave cst, ast and cut flag alone ---- *)
 Theorem peval_lookahead_pure n neg e f r f' :
-  peval' (S n) (Look neg e) f = Ok r f' -> f' = f.
+  peval' (S n) (Look neg e) f = Ok r f' -> f' = f /\ r = VNone.
 Proof.
   unfold peval. rewrite geval_S. destruct neg;
-    destruct (pev n e (push f) tt) as [[v f1|c|x] []]; cbn; intros H; inversion H; reflexivity.
+    destruct (pev n e (push f) tt) as [[v f1|c|x] []]; cbn; intros H; inversion H; split; reflexivity.
 Qed.
 
 Theorem peval_lookahead_iff n e f :
-  (exists r f1, peval' n e (push f) = Ok r f1) <-> (exists r, peval' (S n) (Look false e) f = Ok r f).
+  (exists r f1, peval' n e (push f) = Ok r f1) <-> peval' (S n) (Look false e) f = Ok VNone f.
 Proof.
   unfold peval. rewrite geval_S. destruct (pev n e (push f) tt) as [[v f1|c|x] []]; cbn [fst]; split.
-  - intros _. exists v. reflexivity.
+  - intros _. reflexivity.
   - intros _. exists v, f1. reflexivity.
   - intros [r [f1 H]]. discriminate.
-  - intros [r H]. discriminate.
+  - intros H. discriminate.
   - intros [r [f1 H]]. discriminate.
-  - intros [r H]. discriminate.
+  - intros H. discriminate.
 Qed.
 
 Theorem peval_neg_lookahead_iff n e f :
@@ -316,3 +316,21 @@ Proof.
 Qed.
 
 End Laws.
+
+(* ---- "a rule's value is always ONE element of its caller" fails in one corner: an override whose value is an open
+        list (a group of several elements) hands that open list to the caller, and if it is the caller's first
+        element the following elements are appended INTO it.  start = r 'c' ; r = @:('a' 'b') on "abc". ---- *)
+Definition o_text : str := [97; 98; 99]%N.
+Definition o_ic : icfg := {| ws_re := None; cm_re := None; eol_re := None; nameguard := false; ignorecase := false; namechars := [] |}.
+Definition o_ec : ecfg := {| memoization := true; left_recursion := true; prune_on_cut := true; memo_cap := 8; parseinfo := false; keywords := [] |}.
+Definition o_rule (e : exp) : rule :=
+  {| r_name := 0; r_exp := e; r_tokn := false; r_isname := false; r_nomemo := false; r_lrec := false; r_memo := true |}.
+Definition o_rules : list rule :=
+  [o_rule (Seq [Call 1; Leaf (LTok [99%N])]);
+   o_rule (Over false (Group (Seq [Leaf (LTok [97%N]); Leaf (LTok [98%N])])))].
+Definition o_run := pparse_with o_text (fun _ _ => None) (fun _ => false) (fun _ => false) (fun c => c) (fun c => c)
+                                o_ic [] o_rules o_ec (fun _ _ => ANone) (fun _ => 0) 30 0.
+
+Lemma override_list_is_flattened :
+  exists f, o_run = Ok (VList true [VStr [97%N]; VStr [98%N]; VStr [99%N]]) f.
+Proof. eexists. vm_compute. reflexivity. Qed.
